@@ -143,6 +143,9 @@ static int CurlAsyncRequest_new(HttpAsyncCtx *client, CurlAsyncRequest **t) {
 			goto cleanup;
 		}
 		tmp->ref = 0;
+		tmp->client = NULL;
+		tmp->reqCtx = NULL;
+		tmp->easyHandle = NULL;
 
 		tmp->cap = 0;
 		tmp->raw = NULL;
